@@ -443,3 +443,386 @@ def uniform(ctx):
            Ob(r, "two-loops", len(loops) == 2, "ecc_block = loop over data codewords x loop over register cells", detail=len(loops))]
     # register update shape: ecc[j] = ecc[j+1] + k*g[j+1], k = ecc[0] + a, inner loop 0..g.len()-1
     return obs
+
+
+# =====================================================================================
+# decoder side
+# =====================================================================================
+
+PEE = "errorcode::decoding::primitive_element_evaluation"
+
+
+def _norm_view(e):
+    """normalise a strided codeword view to ('chain', (base, stride), (base, stride)) or None;
+    iter/iter_mut/copied/cloned are transparent"""
+    def one(x):
+        x = strip_into_iter(x)
+        if x[0] == "call" and x[1].endswith("Iterator::step_by"):
+            inner, stride = x[2]
+            inner = strip_into_iter(inner)
+            while inner[0] == "call" and (inner[1].endswith("::iter") or inner[1].endswith("::iter_mut") or inner[1].endswith("Iterator::copied") or inner[1].endswith("Iterator::cloned")):
+                inner = strip_into_iter(inner[2][0])
+            return (inner, stride)
+        return None
+    e = strip_into_iter(e)
+    if e[0] == "call" and e[1].endswith("Iterator::chain"):
+        a, b = one(e[2][0]), one(e[2][1])
+        if a and b:
+            return ("chain", a, b)
+    return None
+
+
+def _is_full_syndromes(x, name="syndromes"):
+    x2 = x
+    while x2[0] == "call" and (x2[1].endswith("::deref_mut") or x2[1].endswith("::deref") or x2[1].endswith("as_mut_slice") or x2[1].endswith("as_mut")):
+        x2 = x2[2][0]
+    return is_var(x2, name)
+
+
+def _mutates_words(e):
+    """does the expression obtain mutable access to the data/error slices?"""
+    for x in T.sx_walk(e):
+        if x[0] == "call" and (x[1].endswith("iter_mut") or x[1].endswith("index_mut") or x[1].endswith("get_mut") or x[1].endswith("split_at_mut")
+                               or x[1].endswith("swap") or x[1].endswith("copy_from_slice") or x[1].endswith("fill")):
+            if any(is_var(y, "data") or is_var(y, "error") for y in T.sx_walk(x)):
+                return True
+        if x[0] == "index" and (is_var(x[1], "data") or is_var(x[1], "error")):
+            pass
+    return False
+
+
+def _is_ok_unit(e):
+    return e is not None and e[0] == "adt" and e[1] == "core::result::Result" and e[2] == "Ok"
+
+
+def _is_err(e):
+    return e is not None and e[0] == "adt" and e[1] == "core::result::Result" and e[2] == "Err"
+
+
+def synzero(ctx):
+    r = "SYNZERO"
+    f = ctx.facts()
+    need(DGEN in f.thir, r, DGEN)
+    b = f.thir[DGEN]
+    params = [p["pat"]["name"].split("#")[0] for p in b["params"]]
+    need(params[:4] == ["data", "error", "stride", "err_len"], r, DGEN, "(parameters data, error, stride, err_len)")
+    sts = T.stmts(b["body"], {"__noinline__": True})
+    obs = []
+    site0 = T.span_str(b["span"])
+    # syndrome buffer: vec![GF(0); err_len]
+    syn = [s for s in sts if s[0] == "let" and s[1].split("#")[0] == "syndromes"]
+    ok = len(syn) == 1 and syn[0][3][0] == "call" and syn[0][3][1].endswith("vec::from_elem") and is_var(syn[0][3][2][1], "err_len")
+    obs.append(Ob(r, "syndromes-len", ok, "the syndrome buffer has err_len entries (all k roots 2^1..2^k are evaluated, k not 2*floor(k/2))", site=site0,
+                  detail=T.sx_show(syn[0][3]) if syn else None))
+    evals = {}   # variable name -> is a qualifying evaluation
+    n_eval = 0
+
+    def qualify(e):
+        """e is primitive_element_evaluation(<strided chain of data,error>, <full syndromes>)"""
+        if not (e[0] == "call" and e[1] == PEE and len(e[2]) == 2):
+            return None
+        view = e[2][0]
+        if view[0] == "var" and view[2] in viewvars:
+            view = viewvars[view[2]]
+        nv = _norm_view(view)
+        okv = nv is not None and is_var(nv[1][0], "data") and is_var(nv[2][0], "error") and is_var(nv[1][1], "stride") and is_var(nv[2][1], "stride")
+        oks = _is_full_syndromes(e[2][1])
+        return (okv, oks, T.sx_show(view, 200), T.sx_show(e[2][1], 120))
+
+    viewvars = {}
+    verified = False
+    state_note = "start"
+    k_ok = 0
+    for s in sts:
+        kind = s[0]
+        if kind == "let":
+            name, init = s[1], s[3]
+            if _norm_view(init) is not None:
+                viewvars[name] = init
+                if _mutates_words(init):
+                    verified = False
+                continue
+            q = qualify(init)
+            if q is not None:
+                n_eval += 1
+                evals[name] = q
+                obs.append(Ob(r, "eval:%d:view" % n_eval, q[0], "syndrome evaluation #%d reads data.step_by(stride) followed by error.step_by(stride)" % n_eval, site=s[4], detail=q[2]))
+                obs.append(Ob(r, "eval:%d:all-syndromes" % n_eval, q[1], "syndrome evaluation #%d fills the whole syndrome buffer (not a sub-slice)" % n_eval, site=s[4], detail=q[3]))
+                continue
+            if _mutates_words(init):
+                verified = False
+                state_note = "store at " + s[4]
+            continue
+        if kind == "letpat":
+            if s[2] is not None and _mutates_words(s[2]):
+                verified = False
+            continue
+        if kind == "if":
+            cond = s[1]
+            neg = False
+            c = cond
+            if c[0] == "un" and c[1] == "Not":
+                neg = True
+                c = c[2]
+            q = None
+            if c[0] == "var" and c[2] in evals:
+                q = evals[c[2]]
+            else:
+                q = qualify(c)
+                if q is not None:
+                    n_eval += 1
+                    obs.append(Ob(r, "eval:%d:view" % n_eval, q[0], "syndrome evaluation #%d reads data.step_by(stride) followed by error.step_by(stride)" % n_eval, site=s[4], detail=q[2]))
+                    obs.append(Ob(r, "eval:%d:all-syndromes" % n_eval, q[1], "syndrome evaluation #%d fills the whole syndrome buffer (not a sub-slice)" % n_eval, site=s[4], detail=q[3]))
+            if q is not None and q[0] and q[1]:
+                zero_branch, nz_branch = (s[2], s[3]) if neg else (s[3], s[2])
+                # returns of Ok inside the zero branch are verified
+                for st in T.stmt_walk(zero_branch):
+                    if st[0] == "return" and _is_ok_unit(st[1]):
+                        k_ok += 1
+                        obs.append(Ob(r, "ok:%d" % k_ok, True, "`return Ok` on the all-syndromes-zero edge of a full syndrome evaluation", site=st[2]))
+                for st in T.stmt_walk(nz_branch):
+                    if st[0] == "return" and _is_ok_unit(st[1]):
+                        k_ok += 1
+                        obs.append(Ob(r, "ok:%d" % k_ok, False, "`return Ok` on the edge where some syndrome is non-zero", site=st[2]))
+                zero_returns = any(st[0] == "return" for st in zero_branch[-1:])
+                nz_returns = any(st[0] == "return" for st in nz_branch[-1:])
+                if nz_returns and not zero_returns:
+                    verified = True
+                    state_note = "after `if nonzero { return Err }` at " + s[4]
+                elif zero_returns and not nz_returns:
+                    verified = False
+                    state_note = "non-zero syndromes known at " + s[4]
+                else:
+                    verified = False
+                continue
+            # any other `if`: Ok returns inside need `verified` before and no store inside
+            inner_mut = any(_mutates_words(e) for st in T.stmt_walk(s[2] + s[3]) for e in T.stmt_exprs(st))
+            for st in T.stmt_walk(s[2] + s[3]):
+                if st[0] == "return" and _is_ok_unit(st[1]):
+                    k_ok += 1
+                    obs.append(Ob(r, "ok:%d" % k_ok, verified and not inner_mut, "`return Ok` is reached only with all syndromes verified zero (%s)" % state_note, site=st[2]))
+            if inner_mut:
+                verified = False
+                state_note = "store inside `if` at " + s[4]
+            continue
+        # loops, matches, plain expressions, assignments
+        inner = list(T.stmt_walk([s]))
+        muts = any(_mutates_words(e) for st in inner for e in T.stmt_exprs(st)) or any(st[0] in ("assign", "assignop") and any(
+            is_var(y, "data") or is_var(y, "error") or (y[0] == "var" and y[1] == "codeword") for y in T.sx_walk(st[1] if st[0] == "assign" else st[2])) for st in inner)
+        for st in inner:
+            if st[0] == "return" and _is_ok_unit(st[1]):
+                k_ok += 1
+                obs.append(Ob(r, "ok:%d" % k_ok, verified and not muts, "`return Ok` is reached only with all syndromes verified zero (%s)" % state_note, site=st[2]))
+        if muts:
+            verified = False
+            state_note = "store in statement at " + str(s[-1] if isinstance(s[-1], str) else "?")
+        if kind == "expr" and _is_ok_unit(s[1]) and s is sts[-1]:
+            k_ok += 1
+            obs.append(Ob(r, "ok:%d" % k_ok, verified, "the final `Ok(())` is reached only with all syndromes of the (corrected) word verified zero (%s)" % state_note, site=s[2]))
+    obs.append(Ob(r, "ok-sites", k_ok >= 2, "found the success exits of decode_gen (%d)" % k_ok))
+    # primitive_element_evaluation returns the OR over all outputs
+    pe = f.thir.get(PEE)
+    need(pe, r, PEE)
+    psts = T.stmts(pe["body"], {"__noinline__": True})
+    loops = [s for s in psts if s[0] == "for"]
+    ok = False
+    det = None
+    if len(loops) == 1:
+        it = strip_into_iter(loops[0][2])
+        over_out = it[0] == "call" and (it[1].endswith("iter_mut") or it[1].endswith("::iter")) and is_var(strip_into_iter(it[2][0]), "out")
+        ovar = loops[0][1][0].split("#")[0]
+        upd = [st for st in loops[0][3] if st[0] in ("assign", "assignop") and is_var(st[1] if st[0] == "assign" else st[2], "errors")]
+        okupd = False
+        if len(upd) == 1 and upd[0][0] == "assign":
+            rhs = upd[0][2]
+            det = T.sx_show(rhs)
+            if rhs[0] == "logic" and rhs[1] == "Or":
+                parts = [rhs[2], rhs[3]]
+                okupd = any(is_var(p, "errors") for p in parts) and any(p[0] == "call" and p[1].endswith("::ne") and is_var(p[2][0], ovar) for p in parts)
+        tail = psts[-1]
+        ok = over_out and okupd and tail[0] == "expr" and is_var(tail[1], "errors")
+    obs.append(Ob(r, "pee-or", ok, "primitive_element_evaluation returns true iff some evaluated syndrome is non-zero (OR over every entry of `out`)", site=T.span_str(pe["span"]), detail=det))
+    # decode(): Ok only after every block returned Ok
+    dsts, _ = T.fn_stmts(f, DEC)
+    need(dsts is not None, r, DEC)
+    oks = [st for st in T.stmt_walk(dsts) if (st[0] == "return" and _is_ok_unit(st[1])) or (st[0] == "expr" and _is_ok_unit(st[1]))]
+    loops = [s for s in dsts if s[0] == "for"]
+    ok = len(oks) == 1 and dsts[-1] in oks and len(loops) == 1
+    if ok:
+        # the decode_gen call is under `?`
+        tries = [x for st in T.stmt_walk(loops[0][3]) for e in T.stmt_exprs(st) for x in T.sx_walk(e) if x[0] == "try"]
+        calls_all = [x for st in T.stmt_walk(loops[0][3]) for e in T.stmt_exprs(st) for x in T.sx_calls(e, "decode_gen")]
+        calls_try = [x for t in tries for x in T.sx_calls(t, "decode_gen")]
+        ok = len(calls_all) == 1 and len(calls_try) == 1
+    obs.append(Ob(r, "decode-all-blocks", ok, "decode() returns Ok only after the block loop, and every block's error is propagated with `?`"))
+    obs += floor(obs, r, 8, "SYNZERO obligations")
+    return obs
+
+
+def prov_rsdec(ctx):
+    r = "PROV-RSDEC"
+    f = ctx.facts()
+    dsts, _ = T.fn_stmts(f, DEC)
+    need(dsts is not None, r, DEC)
+    b = f.thir[DEC]
+    obs = []
+    site = T.span_str(b["span"])
+    params = [p["pat"]["name"].split("#")[0] for p in b["params"]]
+    need(params == ["codewords", "size"], r, DEC, "(parameters codewords, size)")
+    # split point
+    sp = [s for s in dsts if s[0] == "letpat" and s[2] is not None and s[2][0] == "call" and s[2][1].endswith("split_at_mut")]
+    ok = len(sp) == 1 and is_var(sp[0][2][2][0], "codewords") and is_num_data(sp[0][2][2][1]) and [n.split("#")[0] for n in sp[0][1]] == ["data", "error"]
+    obs.append(Ob(r, "split", ok, "codewords are split into (data, error) at size.num_data_codewords()", site=site, detail=T.sx_show(sp[0][2]) if sp else None))
+    loops = [s for s in dsts if s[0] == "for"]
+    blk = None
+    for s in loops:
+        rp = range_parts(strip_into_iter(s[2]))
+        if rp and rp[0] == ("lit", 0) and is_setup_field(rp[1], "num_ecc_blocks"):
+            blk = s
+    obs.append(Ob(r, "block-loop", blk is not None, "decode loops over 0..block_setup(size).num_ecc_blocks", site=site, detail=[T.sx_show(s[2]) for s in loops]))
+    if blk is None:
+        return obs
+    bv = blk[1][0].split("#")[0]
+    calls = [x for st in T.stmt_walk(blk[3]) for e in T.stmt_exprs(st) for x in T.sx_calls(e, "decode_gen")]
+    obs.append(Ob(r, "one-call", len(calls) == 1, "one decode_gen call per block", detail=len(calls)))
+    if len(calls) != 1:
+        return obs
+    a = calls[0][2]
+
+    def tail_from(x, base):
+        x = strip_into_iter(x)
+        if x[0] == "call" and (x[1].endswith("index_mut") or x[1].endswith("::index")) and is_var(strip_into_iter(x[2][0]), base):
+            rf = adt_fields(x[2][1], "core::ops::RangeFrom")
+            return bool(rf) and is_var(rf.get("start"), bv)
+        return False
+    obs.append(Ob(r, "arg:data", tail_from(a[0], "data"), "block b's data view starts at data[b..]", detail=T.sx_show(a[0])))
+    obs.append(Ob(r, "arg:error", tail_from(a[1], "error"), "block b's error view starts at error[b..]", detail=T.sx_show(a[1])))
+    obs.append(Ob(r, "arg:stride", is_setup_field(a[2], "num_ecc_blocks"), "stride = block_setup(size).num_ecc_blocks", detail=T.sx_show(a[2])))
+    obs.append(Ob(r, "arg:err_len", is_setup_field(a[3], "num_ecc_per_block"), "err_len = block_setup(size).num_ecc_per_block", detail=T.sx_show(a[3])))
+    obs += floor(obs, r, 7, "decoder wiring obligations")
+    return obs
+
+
+def gather_scatter(ctx):
+    r = "GATHER-SCATTER"
+    f = ctx.facts()
+    need(DGEN in f.thir, r, DGEN)
+    b = f.thir[DGEN]
+    lets = {"__noinline__": True}
+    sts = T.stmts(b["body"], lets)
+    obs = []
+    # simple pure lets for n, n_data, n_error
+    pure = {}
+    for s in sts:
+        if s[0] == "let":
+            pure[s[1].split("#")[0]] = s[3]
+
+    def expand(e, depth=6):
+        if depth == 0:
+            return e
+        if e[0] == "var" and e[1] in pure and e[1] in ("n", "n_data", "n_error", "i", "idx", "pos", "t", "v"):
+            return expand(pure[e[1]], depth - 1)
+        if e[0] == "bin":
+            return ("bin", e[1], expand(e[2], depth - 1), expand(e[3], depth - 1))
+        return e
+
+    def is_ceil_len(e, base):
+        """(len(base) + stride - 1) / stride  or  len(base).div_ceil(stride)"""
+        e = expand(e)
+        if e[0] == "call" and e[1].endswith("div_ceil"):
+            return e[2][0][0] == "call" and e[2][0][1].endswith("::len") and is_var(strip_into_iter(e[2][0][2][0]), base) and is_var(e[2][1], "stride")
+        if e[0] == "bin" and e[1] == "Div" and is_var(e[3], "stride"):
+            num = e[2]
+            if num[0] == "bin" and num[1] == "Sub" and num[3] == ("lit", 1) and num[2][0] == "bin" and num[2][1] == "Add":
+                p, q = num[2][2], num[2][3]
+                def is_len(x):
+                    return x[0] == "call" and x[1].endswith("::len") and is_var(strip_into_iter(x[2][0]), base)
+                return (is_len(p) and is_var(q, "stride")) or (is_len(q) and is_var(p, "stride"))
+        return False
+
+    def is_n(e):
+        e = expand(e)
+        return e[0] == "bin" and e[1] == "Add" and ((is_ceil_len(e[2], "data") and is_ceil_len(e[3], "error")) or (is_ceil_len(e[3], "data") and is_ceil_len(e[2], "error")))
+
+    # the syndrome view
+    views = [s[3] for s in sts if s[0] == "let" and _norm_view(s[3]) is not None]
+    need(views, r, DGEN, "(strided codeword view)")
+    ref_view = _norm_view(views[0])
+    # correction loop: the for loop that stores into data/error
+    corr = None
+    for s in sts:
+        if s[0] == "for":
+            inner = list(T.stmt_walk(s[3]))
+            if any(st[0] == "assign" for st in inner) and any(_mutates_words(e) or any(x[0] == "index" and (is_var(x[1], "data") or is_var(x[1], "error")) for x in T.sx_walk(e))
+                                                               for st in inner for e in T.stmt_exprs(st)):
+                corr = s
+    need(corr is not None, r, DGEN, "(correction loop)")
+    site = corr[4]
+    inner = corr[3]
+    ilets = {st[1].split("#")[0]: st[3] for st in inner if st[0] == "let"}
+    pure.update(ilets)
+    # location variable
+    loc_ok = False
+    ivar = None
+    for name, e in ilets.items():
+        if e[0] == "call" and e[1].endswith("GF::log"):
+            ivar = name
+            loc_ok = True
+    obs.append(Ob(r, "location", loc_ok, "the error position is the discrete log of the locator root", site=site))
+    # range rejection: if i >= n { return Err }
+    rej = False
+    for st in inner:
+        if st[0] == "if" and st[1][0] == "bin":
+            op, l, rr = st[1][1], expand(st[1][2]), st[1][3]
+            if ((op == "Ge" and (l[0] == "call" and l[1].endswith("GF::log")) and is_n(rr)) or (op == "Le" and is_n(st[1][2]) and expand(rr)[0] == "call")) \
+                    and any(x[0] == "return" and _is_err(x[1]) for x in st[2]):
+                rej = True
+    obs.append(Ob(r, "range-reject", rej, "locations i >= n (outside the shortened code) are rejected with an error before the store", site=site))
+    # the store
+    stores = [st for st in T.stmt_walk(inner) if st[0] == "assign"]
+    ok = False
+    form = None
+    det = None
+    if len(stores) == 1 and is_var(stores[0][1], "codeword") or (len(stores) == 1 and stores[0][1][0] == "var"):
+        tgt = stores[0][1][1]
+        src = ilets.get(tgt)
+        if src is not None:
+            nth = [x for x in T.sx_walk(src) if x[0] == "call" and x[1].endswith("::nth")]
+            if len(nth) == 1:
+                v = _norm_view(nth[0][2][0])
+                idx = expand(nth[0][2][1])
+                det = {"view": T.sx_show(nth[0][2][0], 200), "index": T.sx_show(idx, 200)}
+                same_view = v is not None and ref_view is not None and v == ref_view
+                # index = n - i - 1
+                okidx = idx[0] == "bin" and idx[1] == "Sub" and idx[3] == ("lit", 1) and idx[2][0] == "bin" and idx[2][1] == "Sub" and is_n(idx[2][2]) \
+                    and (expand(idx[2][3])[0] == "call" and expand(idx[2][3])[1].endswith("GF::log"))
+                ok = same_view and okidx
+                form = "strided chain .nth(n - i - 1)"
+    elif len(stores) == 2:
+        form = "two indexed stores"
+        det = [T.sx_show(st[1], 160) for st in stores]
+        ok = False  # indexed form: position*stride into data, (position - n_data)*stride into error
+        def idx_of(st, base):
+            x = st[1]
+            if x[0] == "index" and is_var(x[1], base):
+                return x[2]
+            return None
+        d = [idx_of(st, "data") for st in stores]
+        e = [idx_of(st, "error") for st in stores]
+        di = next((x for x in d if x is not None), None)
+        ei = next((x for x in e if x is not None), None)
+        if di is not None and ei is not None:
+            def is_pos(x):
+                x = expand(x)
+                return x[0] == "bin" and x[1] == "Sub" and x[3] == ("lit", 1) and x[2][0] == "bin" and x[2][1] == "Sub" and is_n(x[2][2])
+            dx, ex = expand(di), expand(ei)
+            okd = dx[0] == "bin" and dx[1] == "Mul" and ((is_pos(dx[2]) and is_var(dx[3], "stride")) or (is_pos(dx[3]) and is_var(dx[2], "stride")))
+            oke = ex[0] == "bin" and ex[1] == "Mul" and is_var(ex[3], "stride") and ex[2][0] == "bin" and ex[2][1] == "Sub" and is_pos(ex[2][2]) and is_ceil_len(ex[2][3], "data")
+            ok = okd and oke
+    obs.append(Ob(r, "store-address", ok,
+                  "the corrected codeword is addressed exactly like the word whose syndromes were computed "
+                  "(same data/error strided chain, position n-i-1; or data[p*stride] / error[(p-n_data)*stride])%s" % ("" if ok else "; found: %s" % form),
+                  site=site, detail=det))
+    obs.append(Ob(r, "n", is_n(("var", "n", None)) if "n" in pure else False, "n = ceil(len(data)/stride) + ceil(len(error)/stride) (length of the strided block)", detail=T.sx_show(expand(("var", "n", None)), 200) if "n" in pure else None))
+    obs += floor(obs, r, 4, "gather/scatter obligations")
+    return obs
